@@ -32,7 +32,7 @@ def strip_comments(src):
 
 
 # further modules whose theorems live in the property's namespace (they import the property's own file)
-EXTRA_MODULES = {'C09': ['Klepto.Props.PosOnly', 'Klepto.Props.C09Tol', 'Klepto.Props.KeysBound'], 'C10': ['Klepto.Props.PosOnly', 'Klepto.Props.C10Str', 'Klepto.Props.C10Sentinel', 'Klepto.Props.KeysBound'], 'C19': ['Klepto.Props.PosOnly', 'Klepto.Props.C19Bound', 'Klepto.Props.C19KwOnly'], 'C01': ['Klepto.Props.C01Bridge', 'Klepto.Props.Reuse'], 'C02': ['Klepto.Props.C02Bridge'], 'C12': ['Klepto.Props.C12Bridge'], 'C05': ['Klepto.Props.Reentrant', 'Klepto.Props.Reuse', 'Klepto.Props.C07Refuse'], 'C13': ['Klepto.Props.C13Again'], 'C20': ['Klepto.Props.C20Pickle'], 'C07': ['Klepto.Props.C07History', 'Klepto.Props.C07Refuse'], 'C15': ['Klepto.Props.C15Refuse'], 'C14': ['Klepto.Props.C14Views'], 'C17': ['Klepto.Props.C17Session']}
+EXTRA_MODULES = {'C09': ['Klepto.Props.PosOnly', 'Klepto.Props.C09Tol', 'Klepto.Props.KeysBound'], 'C10': ['Klepto.Props.PosOnly', 'Klepto.Props.C10Str', 'Klepto.Props.C10Sentinel', 'Klepto.Props.KeysBound'], 'C19': ['Klepto.Props.PosOnly', 'Klepto.Props.C19Bound', 'Klepto.Props.C19KwOnly'], 'C01': ['Klepto.Props.C01Bridge', 'Klepto.Props.Reuse'], 'C02': ['Klepto.Props.C02Bridge', 'Klepto.Props.C02Refuse'], 'C16': ['Klepto.Props.C02Refuse'], 'C12': ['Klepto.Props.C12Bridge'], 'C05': ['Klepto.Props.Reentrant', 'Klepto.Props.Reuse', 'Klepto.Props.C07Refuse'], 'C13': ['Klepto.Props.C13Again'], 'C20': ['Klepto.Props.C20Pickle'], 'C07': ['Klepto.Props.C07History', 'Klepto.Props.C07Refuse'], 'C15': ['Klepto.Props.C15Refuse'], 'C14': ['Klepto.Props.C14Views'], 'C17': ['Klepto.Props.C17Session']}
 
 
 def lean_side(prop, tier):
